@@ -103,6 +103,13 @@ func (s *longStream) unit(pid uint16, payload []byte) int {
 	return n
 }
 
+// unit0 appends the packets of the rest of a unit (no packet carries payload_unit_start).
+func (s *longStream) unit0(pid uint16, payload []byte) {
+	for off := 0; off < len(payload); off += 184 {
+		s.packet(pid, false, payload[off:min(off+184, len(payload))])
+	}
+}
+
 // pesHeaderPTS is a PES header with a PTS and nothing else: length 0 (unbounded) when the unit does not fit 16 bits or bounded is false.
 func pesHeaderPTS(streamID byte, pts int64, dataLen int, bounded bool) []byte {
 	l := 0
